@@ -265,6 +265,25 @@ Definition tw_numpy64 (sr : Q) (ws : list (Q * Q)) : list (Z * Z) := map (conv64
 Definition tw_loop64 (sr : Q) (ws : list (Q * Q)) : list (Z * Z) :=
   if mono_loop (map fst ws) then map (conv64 sr) ws else map (conv64 sr) (sort_w ws).
 
+(* ---- voltage_to_uint16 on arbitrary binary64 inputs (round 6, decimal stream): what both variants compute, every
+   operation rounded once to binary64:   x = v - off ;  |x| > amp ? ;  scale = (2^res - 1) / (2 amp) ;  rint((x + amp) * scale)
+   (2 amp is exact in binary64 short of overflow; b64 (2 amp) is written as the code performs the operation).  For the dyadic
+   inputs of the exact stream no operation rounds and code64 = code1. *)
+Definition out_of_range64 (amp off v : Q) : bool := negb (Qle_bool (Qabs (b64 (v - off))) amp).
+Definition vscale64 (amp : Q) (res : Z) : Q := b64 (inject_Z (2 ^ res - 1) / b64 ((2 # 1) * amp)).
+Definition code64 (amp off : Q) (res : Z) (v : Q) : Z := rint (b64 (b64 (b64 (v - off) + amp) * vscale64 amp res)).
+Definition volt_numpy64 (amp off : Q) (res : Z) (vs : list Q) : outcome (list Z) :=
+  if existsb (out_of_range64 amp off) vs then OErr else ORet (map (fun v => store16 (code64 amp off res v)) vs).
+Fixpoint volt_loop_go64 (amp off : Q) (res : Z) (vs : list Q) (flag : bool) (acc : list Z) : bool * list Z :=
+  match vs with
+  | [] => (flag, rev acc)
+  | v :: r => volt_loop_go64 amp off res r (if out_of_range64 amp off v then true else flag) (store16 (code64 amp off res v) :: acc)
+  end.
+Definition volt_loop64 (amp off : Q) (res : Z) (vs : list Q) : outcome (list Z) :=
+  let '(flag, cs) := volt_loop_go64 amp off res vs false [] in if flag then OErr else ORet cs.
+Definition volt_public64 (amp off : Q) (res : Z) (vs : list Q) : outcome (list Z) :=
+  if (res <? 1) || (16 <? res) then OErr else volt_numpy64 amp off res vs.
+
 (* ------------------------------------------------------------------------------------------------------------ *)
 (* ProgramEntry._sample_waveforms *)
 Inductive trafo := TNone | TAffine (a b : Q) | TSquare.
